@@ -12,16 +12,34 @@ pub struct PathBuf;
 pub struct RefCell<T>(pub T);
 pub struct Waker;
 pub struct Cell<T>(pub T);
-pub struct Weak<T>(pub core::marker::PhantomData<T>);
+/// a weak reference to a waker cell, identified by a number (placeholder: only its identity matters here)
+pub struct Weak<T>(pub u64, pub core::marker::PhantomData<T>);
 
-/// Set of wakers of tasks blocked on a FIFO.  Waking and registering tasks is scheduling (not decided here);
-/// the two operations are opaque and touch nothing else.
+/// Set of wakers of tasks blocked on a FIFO (placeholder of the same name for yash_env::waker::WakerSet, which is a
+/// HashSet of weak waker cells).  ASSUMED contract: `insert` registers the waker, `wake_all` wakes and removes every
+/// registered waker, `is_empty` / `len` observe the registered ones.  WHEN the woken tasks run is scheduling and is not
+/// decided here; what the contracts below do decide is that a blocked reader or writer is always registered and that
+/// the other side is always woken when data or room appears.
 pub struct WakerSet { pub n: usize }
 impl WakerSet {
+    pub uninterp spec fn registered(&self) -> Set<u64>;
+
     #[verifier::external_body]
-    pub fn insert(&mut self, waker: Weak<Cell<Option<Waker>>>) { unimplemented!() }
+    pub fn insert(&mut self, waker: Weak<Cell<Option<Waker>>>) -> (fresh: bool)
+        ensures final(self).registered() == old(self).registered().insert(waker.0),
+    { unimplemented!() }
     #[verifier::external_body]
-    pub fn wake_all(&mut self) { unimplemented!() }
+    pub fn wake_all(&mut self)
+        ensures final(self).registered() == Set::<u64>::empty(),
+    { unimplemented!() }
+    #[verifier::external_body]
+    pub fn is_empty(&self) -> (b: bool)
+        ensures b == (self.registered() == Set::<u64>::empty()),
+    { unimplemented!() }
+    #[verifier::external_body]
+    pub fn len(&self) -> (n: usize)
+        ensures n == self.registered().len(),
+    { unimplemented!() }
 }
 
 /// error numbers used by this unit (the real constants come from libc; only their distinctness matters)
